@@ -537,6 +537,11 @@ def run(ctx, load):
         o['rule'] = 'C12.index-refusal'
     ctx.floors.pop(('C04.index-idiom', ctx.config), None)
     ctx.floor('C12.index-refusal', 12)
+    # a resize / concat / push the object cannot honour (it is not on the heap) is refused before anything is changed
+    from .rules_c16 import check_refusal_covers_mutation
+    check_refusal_covers_mutation(P, ctx, 'src/String.c', 'val', 'C12.refusal-first', 'String')
+    check_refusal_covers_mutation(P, ctx, 'src/Tuple.c', 'items', 'C12.refusal-first', 'Tuple')
+    ctx.floor('C12.refusal-first', 14)
 
 
 EXPLANATION = (
